@@ -454,7 +454,21 @@ class Rules:
                 continue
             c = match_close(masked, m.end() - 1)
             out.append(text[last:m.start()])
-            out.append('String::new()')
+            # the argument expressions are still evaluated (they may panic); only the formatting is dropped
+            inner, inner_m = text[m.end():c], masked[m.end():c]
+            parts = split_top(inner_m, 0, len(inner_m), ',')
+            args = []
+            for (pa, pb) in parts[1:]:
+                a = inner[pa:pb].strip()
+                am = re.match(r'^(\w+)\s*=\s*(?!=)(.*)$', a, flags=re.S)
+                if am:
+                    a = am.group(2)
+                if a:
+                    args.append(a)
+            if args:
+                out.append('{ ' + ' '.join('let _ = &(%s);' % a for a in args) + ' String::new() }')
+            else:
+                out.append('String::new()')
             last = c + 1
             n += 1
         out.append(text[last:])
@@ -475,6 +489,8 @@ class Rules:
             if m.start() < last:
                 continue
             c = match_close(masked, m.end() - 1)
+            if text[m.start():c + 1].replace(' ', '') == '#[default]':
+                continue        # part of the type's meaning (Default impl), kept
             out.append(text[last:m.start()])
             last = c + 1
             n += 1
